@@ -50,7 +50,7 @@ inductive RateClass
   | caller                -- RAW: no header, the caller supplies the rate at re-open
   | field16               -- SVX, MPC2K: 16-bit field
   | float32               -- IRCAM: binary32 field
-  | period (unit : Nat)   -- HTK (100 ns), SDS (1 ns): sample period
+  | period (unit bits : Nat)   -- HTK (100 ns, 32-bit field), SDS (1 ns, 21-bit field): sample period
   | divisor               -- VOC: 1 MHz / (256 − divisor)
   | fixed                 -- XI, WVE: the container fixes the rate
 deriving Repr, DecidableEq
@@ -59,8 +59,8 @@ def rateClass (major : Nat) : RateClass :=
   if major == 0x04 then .caller
   else if major == 0x06 || major == 0x21 then .field16
   else if major == 0x0A then .float32
-  else if major == 0x10 then .period (10 ^ 7)
-  else if major == 0x11 then .period (10 ^ 9)
+  else if major == 0x10 then .period (10 ^ 7) 31
+  else if major == 0x11 then .period (10 ^ 9) 21
   else if major == 0x08 then .divisor
   else if major == 0x0F || major == 0x19 then .fixed
   else .exact
@@ -75,6 +75,13 @@ def roundF32 (n : Nat) : Nat :=
     let h := 2 ^ (e - 1)
     (if h < r || (r == h && q % 2 == 1) then q + 1 else q) * 2 ^ e
 
+/-- the rate a reader derives from a sample-period field of `bits` bits in units of 1/`u` s written for the rate `sr`:
+    the period `u / sr` (truncating) read back as `u / period` (truncating) — `Sf.Htk.quant`, `Sf.SdsFile.quant`; `none`
+    when the field cannot hold the period (0: the rate exceeds the unit; 2^bits and more: the rate is too low) -/
+def periodQuant (u bits sr : Nat) : Option Nat :=
+  let p := u / sr
+  if p == 0 || 2 ^ bits ≤ p then none else some (u / p)
+
 /-- the rate a re-open may report for the rate `sr` asked at open (vlib/geometry.py `rate_ok`, line by line) -/
 def rateOk (major sr : Nat) (got : Int) : Bool :=
   match rateClass major with
@@ -83,7 +90,10 @@ def rateOk (major sr : Nat) (got : Int) : Bool :=
   | .fixed => true
   | .field16 => 65536 ≤ sr || got == (sr : Int)
   | .float32 => 2 ^ 31 - 64 ≤ sr || got == (roundF32 sr : Int)
-  | .period u => (got - (sr : Int)).natAbs ≤ max 1 (sr * sr / u + 1)
+  | .period u b =>
+    match periodQuant u b sr with
+    | some q => got == (q : Int)          -- EXACTLY the documented quantiser
+    | none => 1 ≤ got                     -- the field cannot express the rate: any positive rate
   | .divisor => !(4000 ≤ sr && sr ≤ 200000) || (got - (sr : Int)).natAbs ≤ max 1 (sr * sr / 10 ^ 6 + 1)
 
 /-! ## C01 — the lossless side condition -/
